@@ -60,6 +60,9 @@ const G_DATES: u8 = 2;
 const G_CLAIMS: u8 = 4;
 const G_MISC: u8 = 8;
 const G_ALL: u8 = 15;
+/// lattice mode: every stated condition true / false (one canonical falsifier each), all 2^k combinations
+const G_LATTICE: u8 = 16;
+const G_VARIANT_B: u8 = 32;
 
 #[derive(Serialize, Deserialize, Debug, Clone)]
 struct Case {
@@ -201,8 +204,23 @@ fn classify(err: &JwtValidationError) -> &'static str {
   }
 }
 
-fn pt(ch: &mut Chooser, groups: u8, g: u8, label: &'static str, n: usize) -> usize {
-  if groups & g != 0 {
+/// A choice point of group `g` with `n` alternatives. In lattice mode the point offers only the default and
+/// one canonical falsifier of "its" condition (`lat_a` / `lat_b` = the two falsifier variants); points that
+/// carry no stated condition have an empty map and stay at the default.
+fn pt(ch: &mut Chooser, groups: u8, g: u8, label: &'static str, n: usize, lat_a: &[usize], lat_b: &[usize]) -> usize {
+  if groups & G_LATTICE != 0 {
+    let map = if groups & G_VARIANT_B != 0 { lat_b } else { lat_a };
+    if map.is_empty() {
+      0
+    } else {
+      let c = ch.choose(label, map.len() + 1);
+      if c == 0 {
+        0
+      } else {
+        map[c - 1]
+      }
+    }
+  } else if groups & g != 0 {
     ch.choose(label, n)
   } else {
     0
@@ -215,12 +233,12 @@ fn body(ctx: &Ctx, acc: &Acc, groups: u8, ch: &mut Chooser) {
   let mut x = Expect::default();
 
   // ------------------------------------------------------------ binding core
-  let sig_c = pt(ch, groups, G_BIND, "signature", 4);
-  let kid_c = pt(ch, groups, G_BIND, "kid", 13);
-  let ovr_c = pt(ch, groups, G_BIND, "method_id", 5);
-  let scope_c = pt(ch, groups, G_BIND, "method_scope", 5);
-  let hnonce_c = pt(ch, groups, G_BIND, "header nonce", 3);
-  let ononce_c = pt(ch, groups, G_BIND, "option nonce", 3);
+  let sig_c = pt(ch, groups, G_BIND, "signature", 4, &[2], &[1]);
+  let kid_c = pt(ch, groups, G_BIND, "kid", 13, &[8, 11], &[10, 9]);
+  let ovr_c = pt(ch, groups, G_BIND, "method_id", 5, &[], &[]);
+  let scope_c = pt(ch, groups, G_BIND, "method_scope", 5, &[], &[2]);
+  let hnonce_c = pt(ch, groups, G_BIND, "header nonce", 3, &[1], &[]);
+  let ononce_c = pt(ch, groups, G_BIND, "option nonce", 3, &[], &[2]);
 
   let kid: Option<String> = match kid_c {
     0 => Some(format!("{H}#a1")),
@@ -299,11 +317,11 @@ fn body(ctx: &Ctx, acc: &Acc, groups: u8, ch: &mut Chooser) {
   }
 
   // ------------------------------------------------------------ dates
-  let exp_c = pt(ch, groups, G_DATES, "exp", 10);
-  let expopt_c = pt(ch, groups, G_DATES, "earliest_expiry_date", 2);
-  let nbf_c = pt(ch, groups, G_DATES, "nbf", 9);
-  let iat_c = pt(ch, groups, G_DATES, "iat", 5);
-  let issopt_c = pt(ch, groups, G_DATES, "latest_issuance_date", 2);
+  let exp_c = pt(ch, groups, G_DATES, "exp", 10, &[3], &[7]);
+  let expopt_c = pt(ch, groups, G_DATES, "earliest_expiry_date", 2, &[], &[1]);
+  let nbf_c = pt(ch, groups, G_DATES, "nbf", 9, &[3], &[1]);
+  let iat_c = pt(ch, groups, G_DATES, "iat", 5, &[], &[3]);
+  let issopt_c = pt(ch, groups, G_DATES, "latest_issuance_date", 2, &[], &[1]);
   let bx = if expopt_c == 0 { EXP_BOUND } else { fx::NOW };
   let bl = if issopt_c == 0 { ISS_BOUND } else { fx::NOW };
   // exp as it goes into the JSON, and as an integer when it is one
@@ -374,9 +392,9 @@ fn body(ctx: &Ctx, acc: &Acc, groups: u8, ch: &mut Chooser) {
   }
 
   // ------------------------------------------------------------ claims
-  let iss_c = pt(ch, groups, G_CLAIMS, "iss", 8);
-  let vph_c = pt(ch, groups, G_CLAIMS, "vp.holder", 3);
-  let id_c = pt(ch, groups, G_CLAIMS, "jti/vp.id", 5);
+  let iss_c = pt(ch, groups, G_CLAIMS, "iss", 8, &[1], &[2]);
+  let vph_c = pt(ch, groups, G_CLAIMS, "vp.holder", 3, &[2], &[2]);
+  let id_c = pt(ch, groups, G_CLAIMS, "jti/vp.id", 5, &[3], &[4]);
   let iss: Option<&str> = match iss_c {
     0 => Some(H),
     1 => Some(OTHER),
@@ -421,11 +439,11 @@ fn body(ctx: &Ctx, acc: &Acc, groups: u8, ch: &mut Chooser) {
   }
 
   // ------------------------------------------------------------ misc
-  let aud_c = pt(ch, groups, G_MISC, "aud", 4);
-  let custom_c = pt(ch, groups, G_MISC, "custom claims", 2);
-  let creds_c = pt(ch, groups, G_MISC, "verifiableCredential", 4);
-  let shape_c = pt(ch, groups, G_MISC, "vp shape", 3);
-  let props_c = pt(ch, groups, G_MISC, "vp properties", 2);
+  let aud_c = pt(ch, groups, G_MISC, "aud", 4, &[], &[1]);
+  let custom_c = pt(ch, groups, G_MISC, "custom claims", 2, &[], &[1]);
+  let creds_c = pt(ch, groups, G_MISC, "verifiableCredential", 4, &[], &[]);
+  let shape_c = pt(ch, groups, G_MISC, "vp shape", 3, &[], &[]);
+  let props_c = pt(ch, groups, G_MISC, "vp properties", 2, &[], &[]);
   let aud_json: Option<Value> = match aud_c {
     0 => None,
     1 => Some(json!("did:example:verifier")),
@@ -545,7 +563,7 @@ fn body(ctx: &Ctx, acc: &Acc, groups: u8, ch: &mut Chooser) {
   let jwt = Jwt::new(token);
   let res = guard(|| w.validator.validate::<CoreDocument, Jwt, Object>(&jwt, &w.doc, &opts));
   let open = !x.o.is_empty();
-  let tag = if open { " [open]" } else { "" };
+  let tag = if open { format!(" [open:{}]", x.o.iter().copied().collect::<Vec<_>>().join(",")) } else { String::new() };
   let res = match res {
     Err(p) => {
       ctx.violation(&format!("{ENTRY}|{}", p.key()), &format!("{} ; choices {:?}", p.msg, ch.labelled()), &case);
@@ -712,20 +730,26 @@ fn generate(ctx: &Ctx) {
   ctx.bound("latest_issuance_date_explicit", ISS_BOUND);
 
   let acc = Acc::new();
-  let bound = ctx.by_tier(3u32, 5u32);
+  let bound = ctx.by_tier(3u32, 4u32);
   ctx.bound("deviation_bound", bound);
   choice::explore_into(ctx, "all points, deviation-bounded", Some(bound), |ch| body(ctx, &acc, G_ALL, ch));
   acc.flush(ctx);
-  for (g, name) in [(G_BIND, "binding core (signature x kid x method_id x scope x nonce^2), complete"), (G_DATES, "dates (exp x bound x nbf x iat x bound), complete"), (G_CLAIMS, "claims (iss x vp.holder x jti/vp.id), complete"), (G_MISC, "misc (aud x custom x credentials x shape x properties), complete")] {
+  let mut parts: Vec<(u8, &str)> = vec![
+    (G_LATTICE, "condition lattice A: every stated condition true/false in every combination (falsifiers: foreign key, unknown kid / method without JWK, header nonce, exp = bound-1, nbf = bound+1, iss = other DID, vp.holder differs, vp.id differs)"),
+    (G_LATTICE | G_VARIANT_B, "condition lattice B (falsifiers: key of another holder method, kid absent / kid under another DID, scope assertionMethod, option nonce, exp below year 0, default bounds, nbf absent + iat = bound+1, iss = https URL, vp.id without jti; aud and custom claims present)"),
+    (G_BIND, "binding core (signature x kid x method_id x scope x nonce^2), complete"),
+    (G_DATES, "dates (exp x bound x nbf x iat x bound), complete"),
+    (G_CLAIMS, "claims (iss x vp.holder x jti/vp.id), complete"),
+    (G_MISC, "misc (aud x custom x credentials x shape x properties), complete"),
+  ];
+  if ctx.thorough() {
+    parts.push((G_DATES | G_CLAIMS, "dates x claims, complete"));
+    parts.push((G_CLAIMS | G_MISC, "claims x misc, complete"));
+    parts.push((G_BIND | G_CLAIMS, "binding core x claims, complete"));
+  }
+  for (g, name) in parts {
     choice::explore_into(ctx, name, None, |ch| body(ctx, &acc, g, ch));
     acc.flush(ctx);
-  }
-  // pairwise products of groups (thorough): binding core x claims, dates x claims
-  if ctx.thorough() {
-    for (g, name) in [(G_DATES | G_CLAIMS, "dates x claims, complete"), (G_CLAIMS | G_MISC, "claims x misc, complete")] {
-      choice::explore_into(ctx, name, None, |ch| body(ctx, &acc, g, ch));
-      acc.flush(ctx);
-    }
   }
   ctx.sample("baseline", &Case { groups: G_ALL, seq: vec![] });
 }
